@@ -104,3 +104,85 @@ def basic_stats(case, py, replies):
     return st
 
 
+
+
+# ---------------------------------------------------------------- Count(transform): model Hg.Model.CountT vs implementation
+
+COUNTT_POLYS = [("w/2", [0, 0.5]), ("w*w", [0, 0, 1]), ("1", [1]), ("w+1", [1, 1])]
+
+
+def countt_post(model, ws, chunks, sched, pick):
+    """A Count with a polynomial weight transform on the weights of the case: per-row fill, vectorised fill under a weight
+    array (behind a Sum in a Branch, so that the batch length is known), per-chunk fills merged in the case's schedule and the
+    scalar-weight form, each against the model's `CountT` definitions (for which the laws are proved for every transform)."""
+    import math
+
+    import numpy as np
+
+    import gen
+    from wire import num_to_wire
+
+    ws = [float(w) for w in ws]
+    chunks = [[float(w) for w in c] for c in chunks]
+    if any(math.isinf(w) and w > 0 for w in ws):
+        return None   # the transformed weight would not be a rational
+    label, cs = COUNTT_POLYS[pick % len(COUNTT_POLYS)]
+
+    def f(w):
+        return sum(float(c) * w ** i for i, c in enumerate(cs))
+
+    hg = gen.hg
+    r = model.d.send(["$countt", [num_to_wire(c) for c in cs], [num_to_wire(w) for w in ws],
+                      [[num_to_wire(w) for w in c] for c in chunks], num_to_wire(len(ws))])
+    if isinstance(r, dict):
+        return {"what": "model driver on Count(transform %s): %r" % (label, r)}
+    m_rows, m_np, m_chunks, m_scalar = r
+
+    def branch():
+        return hg.Branch(hg.Sum(lambda x: x), hg.Count(f))
+
+    def wire_of(x):
+        from fractions import Fraction
+
+        return Fraction(float(x))   # the driver's replies arrive decoded as exact rationals
+
+    try:
+        c = hg.Count(f)
+        for w in ws:
+            c.fill(None, w)
+        got_rows = wire_of(c.entries)
+        b = branch()
+        b.fill.numpy(np.zeros(len(ws)), np.array(ws, dtype=np.float64))
+        got_np = wire_of(b.i1.entries)
+        parts = []
+        for ch in chunks:
+            h = c.zero()
+            for w in ch:
+                h.fill(None, w)
+            parts.append(h)
+        got_chunks = [wire_of(h.entries) for h in parts]
+
+        def red(sch):
+            if isinstance(sch, int):
+                return parts[sch]
+            return red(sch[0]) + red(sch[1])
+
+        got_total = wire_of(red(sched).entries) if (parts and sched is not None) else None
+        got_scalar = None
+        if ws and not math.isnan(ws[0]):
+            b2 = branch()
+            b2.fill.numpy(np.zeros(len(ws)), ws[0])
+            c2 = hg.Count(f)
+            for _ in ws:
+                c2.fill(None, ws[0])
+            got_scalar = [wire_of(b2.i1.entries), wire_of(c2.entries)]
+    except Exception as e:  # noqa: BLE001
+        return {"what": "Count(transform %s) on weights %r: %s: %s" % (label, ws, type(e).__name__, str(e)[:200])}
+    for name, got, want in (("per-row fill", got_rows, m_rows), ("vectorised fill with a weight array", got_np, m_np),
+                            ("per-chunk fills", got_chunks, m_chunks), ("chunks merged in the case's schedule", got_total, m_rows),
+                            ("scalar weight on a batch [vectorised, per row]", got_scalar, m_scalar)):
+        if got is None or (name.startswith("per-chunk") and not chunks):
+            continue
+        if got != want:
+            return {"what": "Count(transform %s) on weights %r: %s: implementation %r, model %r" % (label, ws, name, got, want)}
+    return None
